@@ -87,6 +87,12 @@ class Unbound(Exception):
     pass
 
 
+# number of times the last resolutions evaluated a *non-literal* value of a set that is used from
+# outside (with environment, inherit source, call argument, dereferenced alias): the domain of the
+# test-pinned deviation "such sets are evaluated where they are used, as rec"
+CROSSINGS = [0]
+
+
 class Cycle(Exception):
     pass
 
@@ -185,6 +191,8 @@ def lookup(frames: list[Frame], name: str, visited: frozenset, mode: str = "nix"
                     inner = frames[:i] + [Frame("with", env.bindings)]
                     return evaluate(inner, len(inner) - 1, name, visited, mode)
                 inner = env_frames + list(env.wrappers) + [_as_frame(env)]
+                if not isinstance(env.bindings.get(name), int):
+                    CROSSINGS[0] += 1
                 return evaluate(inner, len(inner) - 1, name, visited, mode)
         elif name in fr.bindings:
             return evaluate(frames[: i + 1], i, name, visited, mode)
@@ -216,12 +224,18 @@ def evaluate(frames: list[Frame], idx: int, name: str, visited: frozenset, mode:
         _k, env_frames, env, _w = lookup_set(ctx, v.src, visited, mode)
         if name not in env.bindings:
             raise Unbound(name)
+        if not isinstance(env.bindings.get(name), int):
+            CROSSINGS[0] += 1
         if mode == "pinned":
             inner = frames[: idx + 1] + [Frame("rec", env.bindings)]
         else:
             inner = env_frames + list(env.wrappers) + [_as_frame(env)]
         return evaluate(inner, len(inner) - 1, name, visited, mode)
     ctx = frames[: idx + 1] if recursive else frames[:idx]
+    if fr.kind in ("with", "plain") and not isinstance(v, int):
+        CROSSINGS[0] += 1   # a with environment / a set reached from outside, non-literal value
+    if isinstance(v, Closure) and not isinstance(v.value, int):
+        CROSSINGS[0] += 1
     try:
         return value_of(ctx, v, visited, where, mode)
     except Unbound as exc:
@@ -258,6 +272,8 @@ def expectation(prog: Program, path: list[str], mode: str = "nix"):
             res = evaluate(frames, len(frames) - 1, base[-1], frozenset(), mode)
             if res[0] != "set" or kk not in res[2].bindings:
                 return ("unbound",)
+            if not isinstance(res[2].bindings.get(kk), int):
+                CROSSINGS[0] += 1
             if mode == "pinned":
                 inner = frames + [Frame("rec", res[2].bindings)]
             else:
